@@ -33,7 +33,7 @@ impl Seq {
     }
     pub fn features(&self) -> String {
         let mut s = self.content().to_string();
-        if self.u.iter().any(|&c| crate::model::is_ws(c)) {
+        if self.u.iter().any(|&c| crate::model::is_ws_raw(c)) {
             s.push_str("+ws");
         }
         if self.u.contains(&0) {
